@@ -25,6 +25,9 @@ pub struct Script {
     pub piece: usize,
     /// sorted by call index
     pub faults: Vec<(usize, Fault)>,
+    /// a source that reports end-of-input once at this offset (empty `fill_buf`) and then goes on
+    /// delivering the rest (a file that is appended to, a socket): `Eof` must stay final for the reader
+    pub eof_once_at: Option<usize>,
 }
 
 impl Script {
@@ -46,6 +49,7 @@ impl Script {
             "cuts": self.cuts,
             "piece": self.piece,
             "faults": self.faults.iter().map(|(i, f)| serde_json::json!([i, format!("{:?}", f)])).collect::<Vec<_>>(),
+            "eof_once_at": self.eof_once_at,
         })
     }
     pub fn from_json(v: &serde_json::Value) -> Script {
@@ -69,7 +73,7 @@ impl Script {
                     .collect()
             })
             .unwrap_or_default();
-        Script { cuts, piece, faults }
+        Script { cuts, piece, faults, eof_once_at: v["eof_once_at"].as_u64().map(|x| x as usize) }
     }
 }
 
@@ -89,6 +93,7 @@ pub struct Source<'a> {
     /// misuse of the BufRead contract by the consumer (consume more than offered)
     pub misuse: Option<String>,
     last_offered: usize,
+    eof_reported: bool,
 }
 
 impl<'a> Source<'a> {
@@ -104,6 +109,7 @@ impl<'a> Source<'a> {
             faults_fired: 0,
             misuse: None,
             last_offered: 0,
+            eof_reported: false,
         }
     }
     fn piece_end(&mut self) -> usize {
@@ -134,7 +140,19 @@ impl<'a> Source<'a> {
     }
     fn answer(&mut self) -> &'a [u8] {
         self.data_calls += 1;
-        let end = self.piece_end();
+        if let Some(k) = self.script.eof_once_at {
+            if !self.eof_reported && self.pos >= k {
+                self.eof_reported = true;
+                self.last_offered = 0;
+                return &self.data[self.pos..self.pos];
+            }
+        }
+        let mut end = self.piece_end();
+        if let Some(k) = self.script.eof_once_at {
+            if !self.eof_reported && k > self.pos {
+                end = end.min(k);
+            }
+        }
         self.last_offered = end - self.pos;
         &self.data[self.pos..end]
     }
